@@ -15,6 +15,12 @@ for _i in range(1, 18):
         if ("c%02d" % _i) in str(e):
             continue
         raise
+    except Exception as e:      # a module under construction must not take the others down
+        import sys as _sys
+        print("registry: cannot import vf.props.c%02d: %r" % (_i, e), file=_sys.stderr)
+        continue
+    if not hasattr(_m, "REG"):
+        continue
     PROPS[_pid] = dict(_m.REG, mod="c%02d" % _i)
 
 
